@@ -6,18 +6,26 @@ predecessor relation (`C12_kahn_*`).  Part B: the same instantiated with the pre
 `Graph.sort` builds from a graph tree (`C12_perm`, `C12_respects`, `C12_cycle_iff`,
 `C12_cycle_no_change`, `C12_order_independent`, `C12_fixpoint_graph`, `C12_fixpoint`,
 `C12_deterministic`) and the pass over main graph + functions (`C12_pass_atomic`, `C12_pass_result`).
-Not theorems (by construction of the model, hence not listed): the result depends only on the
-current tree (the model is a function of it; the stateful correspondence checks the code), and
-the `sharedGraph` branch of `sortModel` (a derived summary, differential only).
+Part C: the stateful world (`Model/SortState.lean`: node containers = C11's pointer-level model,
+explicit `extend` writes with a write trace): `C12_state_raise_no_write`, `C12_state_sort`,
+`C12_state_abs_only` (the result depends on the current tree only, not on the history that produced
+the containers), `C12_state_deterministic` (nor on identities), `C12_self_nested_recursion`,
+`C12_shared_raises`; `C12_effect_equivariant` (equivariance of the observable effect).
+Part D: the transcription with identity-keyed dicts over a universe that may repeat a node
+(`Model/SortIds.lean`): `C12_ids_refines`, `C12_ids_shared_raises` (derivation of the `sharedGraph`
+branch of `sortModel`), `C12_ids_equivariant`.
 Helper developments: `Lemmas/SortKahn.lean` (the loop), `Lemmas/SortTree.lean` (the tree),
 `Lemmas/SortPos.lean` (positions vs ids), `Lemmas/SortStable.lean` (stability; defines `WellScoped`,
-`OrderedG`), `Lemmas/SortAcyclic.lean` (ordered => acyclic), `Lemmas/SortRename.lean` (renaming), `Lemmas/SortLifted.lean` (flat cycle => per-graph cycle), `Lemmas/SortLinked.lean` (C11 container).
+`OrderedG`), `Lemmas/SortAcyclic.lean` (ordered => acyclic), `Lemmas/SortRename.lean` (renaming), `Lemmas/SortLifted.lean` (flat cycle => per-graph cycle), `Lemmas/SortLinked.lean` (C11 container),
+`Lemmas/SortState.lean` (worlds), `Lemmas/SortIds.lean` (identity-keyed loop).
 -/
 import IrVerif.Lemmas.SortAcyclic
 import IrVerif.Lemmas.SortRename
 import IrVerif.Lemmas.SortLifted
 import IrVerif.Lemmas.SortLinked
 import IrVerif.Lemmas.SortEffect
+import IrVerif.Lemmas.SortState
+import IrVerif.Lemmas.SortIds
 import Mathlib.Data.List.Forall2
 
 namespace IrVerif.Sort
@@ -415,6 +423,427 @@ theorem C12_deterministic (σ τ : Nat → Nat) (hσ : Function.Injective σ)
     sortModel (renG σ τ g) = (sortModel g).map (renOrders σ τ) :=
   sortModel_ren hσ hτ g
 
+/-- renaming of one observable effect -/
+def renEff (σ τ : Nat → Nat) : Eff → Eff
+  | .relink k xs => .relink (τ k) (xs.map σ)
+  | .raise => .raise
+
+theorem runEffs_ren {σ τ : Nat → Nat} (hσ : Function.Injective σ) (hτ : Function.Injective τ)
+    (es : List Eff) : ∀ st : List (Nat × List Nat),
+    runEffs (renOrders σ τ st) (es.map (renEff σ τ)) =
+      ((runEffs st es).1, renOrders σ τ (runEffs st es).2) := by
+  induction es with
+  | nil => intro st; rfl
+  | cons e es ih =>
+    intro st
+    cases e with
+    | raise => rfl
+    | relink k xs =>
+      simp only [List.map_cons, renEff, runEffs, applyEff]
+      have : (renOrders σ τ st).map (fun gc => if gc.1 = τ k then (gc.1, relink gc.2 (xs.map σ)) else gc)
+          = renOrders σ τ (st.map (fun gc => if gc.1 = k then (gc.1, relink gc.2 xs) else gc)) := by
+        simp only [renOrders, List.map_map]
+        apply List.map_congr_left
+        intro gc _
+        simp only [Function.comp]
+        by_cases h : gc.1 = k
+        · simp [h, relink_ren hσ]
+        · have : τ gc.1 ≠ τ k := fun hc => h (hτ hc)
+          simp [h, this]
+      rw [this]
+      exact ih _
+
+/-- **C12_effect_equivariant** (determinism, stated for what a caller observes): relabelling node
+    identities by an injective `σ` and graph identities by an injective `τ` — any other
+    allocation of the same tree — leaves the outcome (raised or not) the same and relabels the
+    node order of every graph afterwards, also when the call raises.  The relabelling goes through
+    every place where the model consults an identity: the node-keyed lookups of the Kahn loop
+    (`indexOfId`), the grouping of popped nodes by `node.graph` (`bucket`), the identity lookups of
+    the container (`appendMove`), and the choice of the container a write goes to (`applyEff`).
+    The heap keys are positions in the pre-order universe, not identities. -/
+theorem C12_effect_equivariant (σ τ : Nat → Nat) (hσ : Function.Injective σ)
+    (hτ : Function.Injective τ) (g : MGraph) :
+    sortEffect (renG σ τ g) = ((sortEffect g).1, renOrders σ τ (sortEffect g).2) := by
+  have htr : sortTrace (renG σ τ g) = (sortTrace g).map (renEff σ τ) := by
+    simp only [sortTrace, sortTraceIn, nodesOf_ren, List.length_map, predsAt_ren (τ := τ) hσ,
+      sharedGraph_ren (τ := τ) hσ, graphsOf_ren]
+    split
+    · rfl
+    split
+    · rfl
+    · simp only [renOrders, List.map_map]
+      apply List.map_congr_left
+      intro gc _
+      simp only [Function.comp, renEff, bucket_ren hτ]
+  simp only [sortEffect]
+  rw [htr, graphsOf_ren]
+  exact runEffs_ren hσ hτ _ _
+
+/-! ## Part C — the stateful world: containers at pointer level, explicit writes
+
+`Model/SortState.lean`: the node containers are C11's `DoublyLinkedSet` models, whose
+representation (boxes, dict order, erased boxes) depends on the whole history of edits; `sortW`
+reads the tree off the world, runs steps 1-4 and then performs one `extend` per graph on the
+containers, recording every write. -/
+
+/-- the keys of `sorted_nodes_by_graph` are graphs of the tree -/
+theorem sortKeys_sub {t : MGraph} {k : Nat} (hk : k ∈ sortKeys (nodesOf t)) :
+    k ∈ gidsOf (allGraphs t) := by
+  obtain ⟨e, he, rfl⟩ := List.mem_map.1 (mem_firsts.1 hk)
+  obtain ⟨h, hh, x, _, rfl⟩ := ent_is_node_root he
+  exact List.mem_map.2 ⟨h, hh, rfl⟩
+
+/-- a graph of the tree that owns a node is a key -/
+theorem sortKeys_of_node {t h : MGraph} (hh : h ∈ allGraphs t) {x : MNode} (hx : x ∈ h.2) :
+    h.1 ∈ sortKeys (nodesOf t) := by
+  apply mem_firsts.2
+  exact List.mem_map.2 ⟨entOf h.1 x, (node_infix hh hx).subset (entOf_mem_entsN _ _), rfl⟩
+
+/-- **C12_state_raise_no_write**: whenever `sortW` does not end normally — `ValueError` of the
+    cycle test (also the shared-Graph-object case) or `RecursionError` of a graph nested in
+    itself — the write trace is empty and the world is *equal* to the world before the call:
+    every box, every dict entry, every table. -/
+theorem C12_state_raise_no_write (w : SWorld) (order : List Nat) (g : Nat)
+    (h : (sortW w order g).out ≠ .ok) :
+    (sortW w order g).trace = [] ∧ (sortW w order g).world = w := by
+  cases hu : unfoldG w w.fuel g with
+  | none => simp [sortW, hu]
+  | some t =>
+    simp only [sortW, hu] at h ⊢
+    by_cases h1 : sharedGraph (nodesOf t) = true
+    · simp [h1]
+    · by_cases h2 : ((kahn (nodesOf t).length (predsAt (nodesOf t))).length != (nodesOf t).length) = true
+      · simp [h1, h2]
+      · simp [h1, h2] at h
+
+/-- **C12_state_sort**: on a world whose containers satisfy C11's representation invariant, for a
+    tree read off the world that is well formed (`WF`: no shared Graph object) and any re-link order
+    that is an arrangement of the graphs owning a node: the outcome is that of `sortModel` on the
+    tree; on `ValueError` nothing is written and the world is equal; on success every write is
+    `extend` of one graph's container with that graph's entry of `sortModel`'s result, each graph
+    owning a node is written exactly once, afterwards the container of EVERY graph of the tree holds
+    (`toList` of the pointer structure) exactly the sorted sequence, containers of graphs outside
+    the tree are untouched (equal as pointer structures), all containers still satisfy the
+    invariant, and attribute / input tables are unchanged.  Composes `C12_relink_refines` (C11)
+    with `C12_perm`. -/
+theorem C12_state_sort (w : SWorld) (hw : LinkedSet.WorldWF w.rw) (order : List Nat) (g : Nat)
+    (t : MGraph) (hu : unfoldG w w.fuel g = some t) (hwf : WF t)
+    (hord : order.Perm (sortKeys (nodesOf t))) :
+    LinkedSet.WorldWF (sortW w order g).world.rw ∧
+    (sortW w order g).world.inputs = w.inputs ∧
+    (sortW w order g).world.rw.attrs = w.rw.attrs ∧
+    (match sortModel t with
+     | none => (sortW w order g).out = .valueError ∧ (sortW w order g).trace = [] ∧
+         (sortW w order g).world = w
+     | some res => (sortW w order g).out = .ok ∧
+         (sortW w order g).trace.map Prod.fst = order ∧
+         (∀ p ∈ (sortW w order g).trace, p ∈ res) ∧
+         (∀ k new, (k, new) ∈ res → (sortW w order g).world.order k = new) ∧
+         (∀ k, k ∉ gidsOf (allGraphs t) → (sortW w order g).world.rw.setOf k = w.rw.setOf k)) := by
+  have hs : sharedGraph (nodesOf t) = false := by simp [sharedGraph, hwf.ids]
+  cases hm : sortModel t with
+  | none =>
+    have hlen := (sortModel_none hwf.ids).1 hm
+    have hlen' : ((kahn (nodesOf t).length (predsAt (nodesOf t))).length != (nodesOf t).length) = true := by
+      simpa using hlen
+    have hres : sortW w order g = ⟨.valueError, w, []⟩ := by
+      simp only [sortW, hu, hs, hlen']; rfl
+    rw [hres]
+    exact ⟨hw, rfl, rfl, rfl, rfl, rfl⟩
+  | some res =>
+    obtain ⟨hlen, hr⟩ := sortModel_some hm
+    have hlen' : ((kahn (nodesOf t).length (predsAt (nodesOf t))).length != (nodesOf t).length) = false := by
+      simp [hlen]
+    let bk := fun k => bucket (nodesOf t) (kahn (nodesOf t).length (predsAt (nodesOf t))) k
+    have hres : sortW w order g =
+        ⟨.ok, applyWrites w (order.map (fun k => (k, bk k))), order.map (fun k => (k, bk k))⟩ := by
+      simp only [sortW, hu, hs, hlen']; rfl
+    rw [hres]
+    obtain ⟨hi, ha, _, _⟩ := applyWrites_inputs w (order.map (fun k => (k, bk k)))
+    have hkeys : (order.map (fun k => (k, bk k))).map Prod.fst = order := by
+      rw [List.map_map]; exact List.map_id' _
+    have hnd : ((order.map (fun k => (k, bk k))).map Prod.fst).Nodup := by
+      rw [hkeys]; exact hord.nodup_iff.2 (firsts_nodup _)
+    obtain ⟨hother, hsame⟩ := applyWrites_setOf w _ hnd
+    -- the entry of a graph of the tree in the result is its bucket
+    have hentry : ∀ h ∈ allGraphs t, (h.1, bk h.1) ∈ res ∧ (bk h.1).Perm (w.order h.1) := by
+      intro h hh
+      obtain ⟨h1, h2⟩ := new_order_eq hwf hlen hh
+      refine ⟨?_, by rw [← unfold_orders hu h hh]; exact h2⟩
+      rw [hr]
+      refine List.mem_map.2 ⟨orderOf h, List.mem_map.2 ⟨h, hh, rfl⟩, ?_⟩
+      show (h.1, relink (h.2.map MNode.id) (bk h.1)) = (h.1, bk h.1)
+      rw [h1]
+    refine ⟨worldWF_applyWrites hw _, hi, ha, rfl, hkeys, ?_, ?_, ?_⟩
+    · intro p hp
+      obtain ⟨k, hk, rfl⟩ := List.mem_map.1 hp
+      obtain ⟨h, hh, rfl⟩ := List.mem_map.1 (sortKeys_sub (hord.subset hk))
+      exact (hentry h hh).1
+    · intro k new hmem
+      rw [hr] at hmem
+      obtain ⟨gc, hgc, heq⟩ := List.mem_map.1 hmem
+      obtain ⟨h, hh, rfl⟩ := List.mem_map.1 hgc
+      rw [Prod.mk.injEq] at heq
+      obtain ⟨rfl, rfl⟩ := heq
+      obtain ⟨h1, h2⟩ := new_order_eq hwf hlen hh
+      show LinkedSet.toList ((applyWrites w _).rw.setOf h.1) = relink (h.2.map MNode.id) (bk h.1)
+      rw [h1]
+      have hperm := (hentry h hh).2
+      by_cases hk : h.1 ∈ order
+      · by_cases hlt : h.1 < w.rw.sets.length
+        · rw [hsame h.1 (bk h.1) (List.mem_map.2 ⟨h.1, hk, rfl⟩) hlt]
+          exact (C12_relink_refines (hw.setOf h.1) (bk h.1)).2.2.2 hperm
+        · -- out of range: the container is the empty default and the graph has no node
+          have hlen2 : (applyWrites w (order.map (fun k => (k, bk k)))).rw.sets.length = w.rw.sets.length :=
+            (applyWrites_inputs w _).2.2.1
+          have he : ∀ w' : SWorld, w'.rw.sets.length = w.rw.sets.length → w'.rw.setOf h.1 = LinkedSet.empty := by
+            intro w' hl
+            simp only [LinkedSet.RWorld.setOf, List.getD]
+            rw [List.getElem?_eq_none (by omega)]; rfl
+          rw [he _ hlen2, toList_empty]
+          have : w.order h.1 = [] := by
+            simp only [SWorld.order, he w rfl, toList_empty]
+          rw [this] at hperm
+          exact (List.perm_nil.1 hperm).symm
+      · -- not addressed: the graph owns no node
+        have hnil : h.2 = [] := by
+          cases hx : h.2 with
+          | nil => rfl
+          | cons x xs =>
+            exact absurd (hord.symm.subset (sortKeys_of_node hh (x := x) (by rw [hx]; simp))) hk
+        rw [hother h.1 (by rw [hkeys]; exact hk)]
+        have h0 : w.order h.1 = [] := by rw [← unfold_orders hu h hh, hnil]; rfl
+        rw [h0] at hperm
+        show w.order h.1 = bk h.1
+        rw [h0, List.perm_nil.1 hperm]
+    · intro k hk
+      apply hother
+      rw [hkeys]
+      exact fun hc => hk (sortKeys_sub (hord.subset hc))
+
+/-- **C12_state_abs_only** (history independence): two worlds with the same abstraction — the same
+    node sequence in every container, the same attribute graphs, the same input producers — but
+    arbitrary, different pointer-level representations (box numbering, erased boxes, dict order:
+    whatever their edit histories left) give the same outcome, the same write trace, and worlds
+    with the same abstraction afterwards.  `Graph.sort` depends on the current tree only. -/
+theorem C12_state_abs_only (w1 w2 : SWorld) (hw1 : LinkedSet.WorldWF w1.rw)
+    (hw2 : LinkedSet.WorldWF w2.rw) (habs : absW w1 = absW w2) (order : List Nat) (g : Nat) :
+    (sortW w1 order g).out = (sortW w2 order g).out ∧
+    (sortW w1 order g).trace = (sortW w2 order g).trace ∧
+    absW (sortW w1 order g).world = absW (sortW w2 order g).world := by
+  simp only [absW, Prod.mk.injEq] at habs
+  obtain ⟨hsets, hattrs, hins⟩ := habs
+  have ho : ∀ k, w1.order k = w2.order k := fun k => by rw [order_eq_abs, order_eq_abs, hsets]
+  have hsub : ∀ v, w1.subsOf v = w2.subsOf v := fun v => by
+    simp only [SWorld.subsOf, LinkedSet.RWorld.visit, LinkedSet.RWorld.attrsOf, hattrs]
+  have hin : ∀ v, w1.inputsOf v = w2.inputsOf v := fun v => by simp only [SWorld.inputsOf, hins]
+  have hfuel : w1.fuel = w2.fuel := by
+    have := congrArg List.length hsets
+    simp only [List.length_map] at this
+    simp only [SWorld.fuel, this]
+  have hunf : unfoldG w1 w1.fuel g = unfoldG w2 w2.fuel g := by
+    rw [hfuel]; exact unfold_congr ho hsub hin _ g
+  unfold sortW
+  rw [hunf]
+  cases unfoldG w2 w2.fuel g with
+  | none => exact ⟨rfl, rfl, by simp only [absW, hsets, hattrs, hins]⟩
+  | some t =>
+    simp only
+    split
+    · exact ⟨rfl, rfl, by simp only [absW, hsets, hattrs, hins]⟩
+    · split
+      · exact ⟨rfl, rfl, by simp only [absW, hsets, hattrs, hins]⟩
+      · refine ⟨rfl, rfl, ?_⟩
+        simp only [absW, Prod.mk.injEq]
+        obtain ⟨i1, a1, _, _⟩ := applyWrites_inputs w1
+          (order.map (fun k => (k, bucket (nodesOf t) (kahn (nodesOf t).length (predsAt (nodesOf t))) k)))
+        obtain ⟨i2, a2, _, _⟩ := applyWrites_inputs w2
+          (order.map (fun k => (k, bucket (nodesOf t) (kahn (nodesOf t).length (predsAt (nodesOf t))) k)))
+        refine ⟨?_, by rw [a1, a2, hattrs], by rw [i1, i2, hins]⟩
+        rw [abs_applyWrites hw1, abs_applyWrites hw2, hsets]
+
+/-- **C12_self_nested_recursion**: if a graph nested in itself (directly or through other graphs)
+    can be reached from the sorted graph, no depth bound suffices to read the tree: the call ends
+    with `RecursionError` (real code: out of `RecursiveGraphIterator`, line 1 of `Graph.sort`),
+    nothing is written, the world is equal. -/
+theorem C12_self_nested_recursion (w : SWorld) (order : List Nat) (g : Nat)
+    (h : ∃ c, Relation.ReflTransGen (Nests w) g c ∧ Relation.TransGen (Nests w) c c) :
+    (sortW w order g).out = .recursionError ∧ (sortW w order g).trace = [] ∧
+    (sortW w order g).world = w := by
+  have hn := unfold_none_of_self_nested h w.fuel
+  simp [sortW, hn]
+
+/-- **C12_shared_raises**: a Graph object reachable through two attributes (the tree read off the
+    world lists some node twice): the pure model raises and its observable containers are as
+    before; the stateful model ends with `ValueError`, performs no write and leaves the world
+    equal — nothing is re-linked.  (That the *code* raises there is derived line by line in
+    `C12_ids_shared_raises` below.) -/
+theorem C12_shared_raises (t : MGraph) (hs : ¬ ((nodesOf t).map Ent.id).Nodup) :
+    sortModel t = none ∧ sortEffect t = (true, graphsOf t) ∧
+    ∀ (w : SWorld) (order : List Nat) (g : Nat), unfoldG w w.fuel g = some t →
+      (sortW w order g).out = .valueError ∧ (sortW w order g).trace = [] ∧
+      (sortW w order g).world = w := by
+  have hsh : sharedGraph (nodesOf t) = true := by simp [sharedGraph, hs]
+  refine ⟨by simp [sortModel, hsh], ?_, ?_⟩
+  · simp [sortEffect, sortTrace, sortTraceIn, hsh, runEffs, applyEff]
+  · intro w order g hu
+    simp only [sortW, hu, hsh]
+    exact ⟨rfl, rfl, rfl⟩
+
+theorem allGraphs_ren (σ τ : Nat → Nat) (g : MGraph) :
+    allGraphs (renG σ τ g) = (allGraphs g).map (renG σ τ) := by
+  simp only [allGraphs, List.map_cons]
+  rw [show (renG σ τ g).2 = renNs σ τ g.2 from rfl, subgraphsNs_ren]
+
+theorem WF_ren {σ τ : Nat → Nat} (hσ : Function.Injective σ) (hτ : Function.Injective τ)
+    {g : MGraph} (h : WF g) : WF (renG σ τ g) := by
+  constructor
+  · rw [nodesOf_ren, List.map_map]
+    have : (Ent.id ∘ renEnt σ τ) = σ ∘ Ent.id := by funext e; rfl
+    rw [this, ← List.map_map]
+    exact (List.nodup_map_iff hσ).2 h.ids
+  · rw [allGraphs_ren, List.map_map]
+    have : (Prod.fst ∘ renG σ τ) = τ ∘ Prod.fst := by funext e; rfl
+    rw [this, ← List.map_map]
+    exact (List.nodup_map_iff hτ).2 h.gids
+
+/-- **C12_state_deterministic** (no dependence on identities, creation indices or history): two
+    worlds — arbitrary pointer-level representations, arbitrary histories — whose trees are the
+    same up to an injective relabelling `σ` of node identities and `τ` of graph identities (same
+    nesting, same node order in every graph, same producer of every input), sorted with arbitrary
+    re-link orders: same outcome (`ok` / `ValueError`), and afterwards every graph of the tree
+    holds, in the second world, the relabelled sequence it holds in the first. -/
+theorem C12_state_deterministic (σ τ : Nat → Nat) (hσ : Function.Injective σ)
+    (hτ : Function.Injective τ) (w1 w2 : SWorld) (hw1 : LinkedSet.WorldWF w1.rw)
+    (hw2 : LinkedSet.WorldWF w2.rw) (o1 o2 : List Nat) (g1 g2 : Nat) (t : MGraph)
+    (hu1 : unfoldG w1 w1.fuel g1 = some t) (hu2 : unfoldG w2 w2.fuel g2 = some (renG σ τ t))
+    (hwf : WF t) (ho1 : o1.Perm (sortKeys (nodesOf t)))
+    (ho2 : o2.Perm (sortKeys (nodesOf (renG σ τ t)))) :
+    (sortW w1 o1 g1).out = (sortW w2 o2 g2).out ∧
+    ∀ h ∈ allGraphs t, (sortW w2 o2 g2).world.order (τ h.1) =
+      ((sortW w1 o1 g1).world.order h.1).map σ := by
+  obtain ⟨_, _, _, h1⟩ := C12_state_sort w1 hw1 o1 g1 t hu1 hwf ho1
+  obtain ⟨_, _, _, h2⟩ := C12_state_sort w2 hw2 o2 g2 _ hu2 (WF_ren hσ hτ hwf) ho2
+  rw [C12_deterministic σ τ hσ hτ t] at h2
+  cases hm : sortModel t with
+  | none =>
+    simp only [hm, Option.map_none] at h1 h2
+    refine ⟨by rw [h1.1, h2.1], ?_⟩
+    intro h hh
+    rw [h1.2.2, h2.2.2]
+    have hh' : renG σ τ h ∈ allGraphs (renG σ τ t) := by
+      rw [allGraphs_ren]; exact List.mem_map_of_mem hh
+    have e2 := unfold_orders hu2 _ hh'
+    have e1 := unfold_orders hu1 _ hh
+    show w2.order (renG σ τ h).1 = _
+    rw [← e2, ← e1]
+    exact renNs_ids σ τ h.2
+  | some res =>
+    simp only [hm, Option.map_some] at h1 h2
+    refine ⟨by rw [h1.1, h2.1], ?_⟩
+    intro h hh
+    obtain ⟨_, hr⟩ := sortModel_some hm
+    have hmem : (h.1, relink (h.2.map MNode.id)
+        (bucket (nodesOf t) (kahn (nodesOf t).length (predsAt (nodesOf t))) h.1)) ∈ res := by
+      rw [hr]
+      exact List.mem_map.2 ⟨orderOf h, List.mem_map.2 ⟨h, hh, rfl⟩, rfl⟩
+    rw [h1.2.2.2.1 _ _ hmem]
+    apply h2.2.2.2.1
+    exact List.mem_map.2 ⟨_, hmem, rfl⟩
+
+/-! ## Part D — the dictionaries keyed by node identity (`Model/SortIds.lean`)
+
+`sortIds` transcribes steps 1-4 with `node_depth` / `node_predecessors` / `neg_node_index` keyed by
+node identity and `nodes` a list that may repeat a node, exactly as the code has them. -/
+
+/-- **C12_ids_refines**: on a well-formed tree (distinct node identities) the identity-keyed
+    transcription and the position-keyed model compute the same thing — same raise-or-not, same
+    new order of every graph.  Hence every `C12_*` theorem about `sortModel` is a theorem about
+    the identity-keyed loop, and modelling the node-keyed dicts by positions loses nothing. -/
+theorem C12_ids_refines (g : MGraph) (hwf : WF g) : sortIds g = sortModel g :=
+  sortIds_eq_sortModel g hwf.ids
+
+/-- in a tree whose root graph lists each of its own nodes once, a node listed twice is a direct
+    node of an attribute graph of some node of the universe -/
+theorem dup_is_owned (g : MGraph)
+    (hroot : ∀ n ∈ g.2, ((nodesOf g).map Ent.id).count n.id = 1) :
+    ∀ p, 2 ≤ (idsOf (nodesOf g)).count p → ∃ o ∈ nodesOf g, p ∈ o.subNodes := by
+  intro p hp
+  have hmem : p ∈ idsOf (nodesOf g) := List.count_pos_iff.1 (by omega)
+  obtain ⟨e, he, rfl⟩ := List.mem_map.1 hmem
+  obtain ⟨h, hh, x, hx, rfl⟩ := ent_is_node_root he
+  rcases mem_allGraphs.1 hh with rfl | ⟨m, hm, hin⟩
+  · have := hroot x hx
+    simp only [idsOf, entOf] at hp this
+    omega
+  · obtain ⟨o, ho, hall⟩ := graph_owner m g.1 h hin
+    exact ⟨o, mem_entsNs.2 ⟨m, hm, ho⟩, hall x hx⟩
+
+/-- **C12_ids_shared_raises** (the shared-Graph-object branch, derived line by line): when the
+    universe lists some node twice — a Graph object reachable through two attributes — and the
+    root graph's own nodes are listed once, the identity-keyed loop never queues a node twice
+    (the popped nodes are distinct; so no two queue entries ever carry the same key), it ends
+    with an empty queue within `len(nodes)` iterations, it pops fewer than `len(nodes)` nodes, and
+    so the cycle test raises: `sortIds = none` — which is what the `sharedGraph` branch of
+    `sortModel` says. -/
+theorem C12_ids_shared_raises (g : MGraph) (hdup : ¬ ((nodesOf g).map Ent.id).Nodup)
+    (hroot : ∀ n ∈ g.2, ((nodesOf g).map Ent.id).count n.id = 1) :
+    (kahnIds (nodesOf g)).sorted.Nodup ∧ (kahnIds (nodesOf g)).heap = [] ∧
+    (kahnIds (nodesOf g)).sorted.length < (nodesOf g).length ∧
+    sortIds g = none ∧ sortIds g = sortModel g := by
+  have hown := dup_is_owned g hroot
+  obtain ⟨hinv, hend⟩ := kahnIds_inv (nodesOf g) hown
+  have hlt := kahnIds_sorted_lt (nodesOf g) hdup hown
+  have hnone : sortIds g = none := by
+    have : ((kahnIds (nodesOf g)).sorted.length != (nodesOf g).length) = true := by
+      simp only [bne_iff_ne, ne_eq]; omega
+    simp [sortIds, this]
+  refine ⟨(List.nodup_append.1 hinv.nodup).2.1, ?_, hlt, hnone, ?_⟩
+  · rcases hend with h | h
+    · exact h
+    · omega
+  · rw [hnone, (C12_shared_raises g hdup).1]
+
+theorem count_map_inj {σ : Nat → Nat} (hσ : Function.Injective σ) (l : List Nat) (x : Nat) :
+    (l.map σ).count (σ x) = l.count x := by
+  induction l with
+  | nil => rfl
+  | cons a as ih =>
+    simp only [List.map_cons, List.count_cons, ih]
+    by_cases h : a = x
+    · subst h; simp
+    · have : σ a ≠ σ x := fun hc => h (hσ hc)
+      simp [h, this]
+
+/-- **C12_ids_equivariant**: the identity-keyed transcription itself is equivariant under every
+    injective relabelling of node and graph identities, on well-formed trees and on trees with a
+    shared Graph object alike (root nodes listed once): the keys of its dicts are identities, and
+    no result depends on which identities they are. -/
+theorem C12_ids_equivariant (σ τ : Nat → Nat) (hσ : Function.Injective σ)
+    (hτ : Function.Injective τ) (g : MGraph)
+    (hroot : ∀ n ∈ g.2, ((nodesOf g).map Ent.id).count n.id = 1) :
+    sortIds (renG σ τ g) = (sortIds g).map (renOrders σ τ) := by
+  have hids : (nodesOf (renG σ τ g)).map Ent.id = ((nodesOf g).map Ent.id).map σ := by
+    rw [nodesOf_ren, List.map_map, List.map_map]; rfl
+  by_cases hnd : ((nodesOf g).map Ent.id).Nodup
+  · have hnd' : (idsOf (nodesOf (renG σ τ g))).Nodup := by
+      show ((nodesOf (renG σ τ g)).map Ent.id).Nodup
+      rw [hids]; exact (List.nodup_map_iff hσ).2 hnd
+    rw [sortIds_eq_sortModel _ hnd', sortIds_eq_sortModel _ hnd]
+    exact C12_deterministic σ τ hσ hτ g
+  · have hdup' : ¬ ((nodesOf (renG σ τ g)).map Ent.id).Nodup := by
+      rw [hids]; exact fun hc => hnd ((List.nodup_map_iff hσ).1 hc)
+    have hroot' : ∀ n ∈ (renG σ τ g).2, ((nodesOf (renG σ τ g)).map Ent.id).count n.id = 1 := by
+      intro n hn
+      have hn' : n.id ∈ ((renG σ τ g).2).map MNode.id := List.mem_map_of_mem hn
+      rw [show (renG σ τ g).2 = renNs σ τ g.2 from rfl, renNs_ids] at hn'
+      obtain ⟨i, hi, hin⟩ := List.mem_map.1 hn'
+      obtain ⟨m, hm, rfl⟩ := List.mem_map.1 hi
+      rw [hids, ← hin, count_map_inj hσ]
+      exact hroot m hm
+    rw [(C12_ids_shared_raises _ hdup' hroot').2.2.2.1, (C12_ids_shared_raises g hnd hroot).2.2.2.1]
+    rfl
+
 /-! ## non-vacuity -/
 
 /-- `g0 = [n1, n0]`, `n1` uses `n0` and owns the body `g1 = [n2]`, `n2` captures `n0` -/
@@ -469,5 +898,62 @@ example : passEffect [ex4, ex3] = (false, [[(0, [0, 1, 3]), (1, [2, 4])], graphs
 example : (graphsOf ex1).reverse.Perm (graphsOf ex1) := List.reverse_perm _
 example : runEffs (graphsOf ex1) (sortTraceIn (graphsOf ex1).reverse ex1) = sortEffect ex1 := by decide
 example : Function.Injective (fun n : Nat => n + 7) := fun a b h => by simpa using h
+
+/-! non-vacuity of Parts C and D -/
+
+/-- the world of `ex1`: container 0 = `[n1, n0]`, container 1 = `[n2]`, `n1` owns graph 1 -/
+def exW : SWorld :=
+  ⟨⟨[(LinkedSet.extend LinkedSet.empty [1, 0]).1, (LinkedSet.extend LinkedSet.empty [2]).1],
+    [(1, [.graph 1])], none⟩, [(0, []), (1, [some 0]), (2, [some 0])]⟩
+/-- the same abstract world reached by another history: `[0, 1]`, then `append 0` -/
+def exW' : SWorld :=
+  ⟨⟨[(LinkedSet.append (LinkedSet.extend LinkedSet.empty [0, 1]).1 0).1,
+     (LinkedSet.extend (LinkedSet.remove (LinkedSet.extend LinkedSet.empty [7, 2]).1 7).1 []).1],
+    [(1, [.graph 1])], none⟩, [(0, []), (1, [some 0]), (2, [some 0])]⟩
+/-- `exW` with graph 0 also the value of an attribute of `n2`: graph 0 is nested in itself -/
+def exWself : SWorld := { exW with rw := { exW.rw with attrs := [(1, [.graph 1]), (2, [.graphs [0]])] } }
+
+theorem exW_wf : LinkedSet.WorldWF exW.rw := by
+  intro s hs
+  simp only [exW, List.mem_cons, List.mem_nil_iff, or_false] at hs
+  rcases hs with rfl | rfl <;> exact LinkedSet.C11_rep_step LinkedSet.C11_rep_empty.1 (.extend _)
+theorem exW'_wf : LinkedSet.WorldWF exW'.rw := by
+  intro s hs
+  simp only [exW', List.mem_cons, List.mem_nil_iff, or_false] at hs
+  rcases hs with rfl | rfl
+  · exact LinkedSet.C11_rep_step (LinkedSet.C11_rep_step LinkedSet.C11_rep_empty.1 (.extend [0, 1])) (.append 0)
+  · exact LinkedSet.C11_rep_step (LinkedSet.C11_rep_step
+      (LinkedSet.C11_rep_step LinkedSet.C11_rep_empty.1 (.extend [7, 2])) (.remove 7)) (.extend [])
+
+example : unfoldG exW exW.fuel 0 = some ex1 := by rfl
+example : [1, 0].Perm (sortKeys (nodesOf ex1)) := by decide
+example : (sortW exW [1, 0] 0).out = .ok ∧ (sortW exW [1, 0] 0).trace = [(1, [2]), (0, [0, 1])] ∧
+    (sortW exW [1, 0] 0).world.order 0 = [0, 1] := by decide
+example : absW exW = absW exW' := by
+  have h : exW.rw.sets.map LinkedSet.toList = exW'.rw.sets.map LinkedSet.toList := by decide
+  simp only [absW, h]
+  rfl
+example : exW.rw.sets.map (fun s => s.boxes.size) ≠ exW'.rw.sets.map (fun s => s.boxes.size) := by decide
+example : (sortW exW' [0, 1] 0).world.order 0 = [0, 1] := by decide
+example : Relation.TransGen (Nests exWself) 0 0 :=
+  Relation.TransGen.tail (Relation.TransGen.single (show Nests exWself 0 1 from ⟨1, by decide, by decide⟩))
+    (show Nests exWself 1 0 from ⟨2, by decide, by decide⟩)
+example : (sortW exWself [] 0).out = .recursionError := by decide
+example : (sortW exW [0, 1] 0).out ≠ .recursionError := by decide
+/-- `ex2` as a world: the cycle test fails, nothing is written -/
+def exWcyc : SWorld :=
+  ⟨⟨[(LinkedSet.extend LinkedSet.empty [0, 1]).1], [], none⟩, [(0, [some 1]), (1, [some 0])]⟩
+example : unfoldG exWcyc exWcyc.fuel 0 = some ex2 := by rfl
+example : (sortW exWcyc [0] 0).out = .valueError ∧ (sortW exWcyc [0] 0).trace = [] := by decide
+/-- a history: build, sort, move `n0` back in front of... behind `n1`, sort again -/
+example : ((runW SWorld.init [.newGraph, .newGraph, .edit 1 (.extend [2]), .edit 0 (.extend [1, 0]),
+    .tables [(0, []), (1, [some 0]), (2, [some 0])] [(1, [.graph 1])], .sort 0 none,
+    .edit 0 (.insertBefore 0 [1]), .sort 0 (some [1, 0])]).2.map (fun r => (r.out, r.trace))) =
+    [(.ok, [(0, [0, 1]), (1, [2])]), (.ok, [(1, [2]), (0, [0, 1])])] := by decide
+example : ∀ n ∈ ex5.2, ((nodesOf ex5).map Ent.id).count n.id = 1 := by decide
+example : sortIds ex5 = none ∧ (kahnIds (nodesOf ex5)).sorted = [1, 2, 0] := by decide
+example : sortIds ex4 = some [(0, [0, 1, 3]), (1, [2, 4])] := by decide
+example : sortEffect (renG (fun n => n + 7) (fun k => k + 3) ex4) =
+    (false, [(3, [7, 8, 10]), (4, [9, 11])]) := by decide
 
 end IrVerif.Sort
